@@ -87,6 +87,7 @@ type StoreObs struct {
 	Raw    []byte // record as persisted (read back from bbolt)
 	Err    string
 	Phase  string // before, after
+	Failed bool   // the caller (the state machine) was told the write failed (injected error before the write, real error, or acknowledgement lost after it)
 }
 
 // Violation is a property violation found by a monitor.
